@@ -52,6 +52,12 @@ class AbstractDiscreteTimeOnlineInterpreter(AbstractOnlineInterpreter, DiscreteT
     def reset(self):
         super(AbstractDiscreteTimeOnlineInterpreter, self).reset()
 
+        # the current value of an input is part of the state: an update() that leaves a variable out
+        # must see the value a new monitor sees (the default of its declaration), not the last one before the reset
+        for var_name in self.ast.free_vars:
+            if var_name in self.ast.var_type_dict:
+                self.ast.var_object_dict[var_name] = self.ast.create_var_from_name(var_name)
+
         self.update_counter = int(0)
         self.previous_time = float(0.0)
         self.sampling_violation_counter = int(0)
